@@ -25,7 +25,7 @@ extern int mpt_path_last(MPT_STRUCT(path) *path)
 	}
 	data += path->off;
 	if (path->flags & MPT_PATHFLAG(SepBinary)) {
-		if (pos < 2 || (pos - 2) < (len = data[pos-2])) {
+		if (pos < 2 || (pos - 2) < (len = (uint8_t) data[pos-2])) {
 			errno = EINVAL; return -2;
 		}
 		pos -= len + 2;
